@@ -40,6 +40,7 @@ fn produce(rng: &mut Rng, ctx: &mut Ctx) -> Option<(BMOC, String)> {
 pub fn judge_program(ctx: &mut Ctx, s: u64) {
   let mut rng = Rng::new(s, 9);
   let case = Case::new("prog").u("s", s);
+  precall(&case); // a process death inside the program is attributed to it
   let mut pool: Vec<(BMOC, String)> = Vec::new();
   let n0 = 2 + rng.below(3);
   while (pool.len() as u64) < n0 { if let Some(x) = produce(&mut rng, ctx) { pool.push(x); } }
@@ -68,6 +69,7 @@ pub fn judge_program(ctx: &mut Ctx, s: u64) {
     }
   }
   ctx.bump("programs");
+  postcall();
 }
 
 fn run(ctx: &mut Ctx, extra: &mut BTreeMap<String, String>) {
